@@ -135,6 +135,20 @@ struct ArrHolder { std::array<int, 3> fixed{}; int z = 0; template <class A> voi
 struct Req3 { int a = 0, b = 0, c = 0; template <class A> void Serialize(A& ar) { ar << BitSerializer::KeyValue("a", a, BitSerializer::Required()) << BitSerializer::KeyValue("b", b, BitSerializer::Required()) << BitSerializer::KeyValue("c", c, BitSerializer::Required()); } };
 struct Outer { Req3 inner; std::vector<Req3> list; template <class A> void Serialize(A& ar) { ar << BitSerializer::KeyValue("inner", inner) << BitSerializer::KeyValue("list", list); } };
 
+// user types whose k-th Serialize() call throws (an exception of the application, derived from std::exception or not)
+struct UserError : std::exception { const char* what() const noexcept override { return "user type refused"; } };
+struct UserErrorNonStd { int code = 7; };
+static long gSerializeCalls = 0, gThrowAtCall = -1; static int gThrowKind = 0;
+static void userHook() { if (++gSerializeCalls == gThrowAtCall) { if (gThrowKind == 0) throw UserError(); if (gThrowKind == 1) throw std::runtime_error("user runtime_error"); throw UserErrorNonStd{}; } }
+struct ULeaf { int v = 0; std::string s; template <class A> void Serialize(A& ar) { userHook(); ar << BitSerializer::KeyValue("v", v) << BitSerializer::KeyValue("s", s); } };
+struct UMid { ULeaf a; std::vector<ULeaf> l; std::map<std::string, ULeaf> m; int n = 0;
+	template <class A> void Serialize(A& ar) { userHook(); ar << BitSerializer::KeyValue("a", a) << BitSerializer::KeyValue("l", l) << BitSerializer::KeyValue("m", m) << BitSerializer::KeyValue("n", n); } };
+struct UTop { UMid x; std::vector<UMid> ms; int tail = 0;
+	template <class A> void Serialize(A& ar) { userHook(); ar << BitSerializer::KeyValue("x", x) << BitSerializer::KeyValue("ms", ms) << BitSerializer::KeyValue("tail", tail); } };
+static ULeaf mkLeaf(int i) { ULeaf l; l.v = i; l.s = "leaf " + std::to_string(i) + " with a text longer than the small string buffer"; return l; }
+static UMid mkMid(int i) { UMid m; m.a = mkLeaf(i); m.l = {mkLeaf(i + 1), mkLeaf(i + 2)}; m.m = {{"k1", mkLeaf(i + 3)}, {"k2", mkLeaf(i + 4)}}; m.n = i; return m; }
+static UTop mkTop() { UTop t; t.x = mkMid(10); t.ms = {mkMid(20), mkMid(30)}; t.tail = 99; return t; }
+
 // Allocations that belong to lazily initialised statics (first use of an enum registry, locale facets, ...)
 // are not leaks: a run that reports live blocks is repeated once and only the repeated run is judged.
 template <class TA, class T> static Res ledgerTypedSave(T& obj, bool stream, long& leaked) {
@@ -346,10 +360,10 @@ static void body(bsx::Ctx& c) {
 		return;
 	}
 	// ---- (d) mid-operation library errors
-	int kind = c.choose(5, "error_kind");
+	int kind = c.choose(6, "error_kind");
 	int arch = c.choose(4, "archive");
 	bool stream = c.flag("stream");
-	static const char* kindName[] = {"csv_or_rows_width_mismatch", "unregistered_enum_on_save", "fixed_array_size_mismatch", "unknown_enum_text_on_load", "validation_cap_in_nested_scope"};
+	static const char* kindName[] = {"csv_or_rows_width_mismatch", "unregistered_enum_on_save", "fixed_array_size_mismatch", "unknown_enum_text_on_load", "validation_cap_in_nested_scope", "user_type_throws"};
 	std::string sig = std::string("C20/mid_operation_error/") + kindName[kind] + "/" + archName(arch) + (stream ? "/stream" : "/mem");
 	long leaked = 0; Res r;
 	if (kind == 0) {
@@ -385,6 +399,38 @@ static void body(bsx::Ctx& c) {
 		r = withArch(arch, [&](auto tag) { using A = typename decltype(tag)::type; return ledgerTypedLoad<A>(rows, bytes, stream, lib::opts(), leaked); });
 		c.nontrivial(sig + std::to_string(pos));
 		judgeCommon(c, sig, r, leaked, true, "row=" + std::to_string(pos));
+	} else if (kind == 5) {
+		// the k-th Serialize() call of a user type throws while saving / loading a nested structure (CSV: a vector of rows)
+		int save = c.choose(2, "save"); int ek = c.choose(3, "exception_type");
+		static const char* ekName[] = {"derived_from_std_exception", "std_runtime_error", "not_derived_from_std"};
+		sig += std::string(save ? "/save/" : "/load/") + ekName[ek];
+		auto& al = env::alloc();
+		auto onePass = [&](auto&& op) { Res rr; { env::AllocScope ledger(-1); { rr = guarded(op); } leaked = al.live; } return rr; };   // everything the operation allocates is created and destroyed inside the ledger
+		auto runOnce = [&](long throwAt, long& calls) -> Res {
+			gThrowKind = ek; Res rr; gThrowAtCall = -1;
+			std::string doc;
+			if (arch == tl::Csv) { std::vector<ULeaf> rows = {mkLeaf(1), mkLeaf(2), mkLeaf(3)}; doc = BitSerializer::SaveObject<tl::CS>(rows); }
+			else { UTop top = mkTop(); doc = withArchNoCsv(arch, [&](auto tag) { using A = typename decltype(tag)::type; return BitSerializer::SaveObject<A>(top); }); }
+			gSerializeCalls = 0; gThrowAtCall = throwAt;
+			if (arch == tl::Csv) rr = onePass([&] {
+				if (save) { std::vector<ULeaf> rows = {mkLeaf(1), mkLeaf(2), mkLeaf(3)}; std::string out; if (stream) { std::ostringstream os; BitSerializer::SaveObject<tl::CS>(rows, os); } else BitSerializer::SaveObject<tl::CS>(rows, out); }
+				else { std::vector<ULeaf> target; if (stream) { std::istringstream is(doc); BitSerializer::LoadObject<tl::CS>(target, is); } else BitSerializer::LoadObject<tl::CS>(target, doc); } });
+			else rr = withArchNoCsv(arch, [&](auto tag) { using A = typename decltype(tag)::type; return onePass([&] {
+				if (save) { UTop top = mkTop(); std::string out; if (stream) { std::ostringstream os; BitSerializer::SaveObject<A>(top, os); } else BitSerializer::SaveObject<A>(top, out); }
+				else { UTop target; if (stream) { std::istringstream is(doc); BitSerializer::LoadObject<A>(target, is); } else BitSerializer::LoadObject<A>(target, doc); } }); });
+			calls = gSerializeCalls; gThrowAtCall = -1; return rr; };
+		long total = 0; Res r0 = runOnce(-1, total);   // also the warm-up for lazily initialised statics
+		if (r0.threw) { c.violation(sig + "/out=fault_free_run_failed", std::string("fault-free run threw ") + r0.cls + " " + r0.what); return; }
+		int k = 1 + c.choose(static_cast<int>(std::min<long>(total, 64)), "kth_serialize_call");
+		c.describe(sig, "Serialize() call #" + std::to_string(k) + " of " + std::to_string(total) + " throws");
+		long calls = 0; r = runOnce(k, calls);
+		c.nontrivial(sig + std::to_string(k));
+		c.outcome(r.cls);
+		if (!r.threw) c.violation(sig + "/out=returned_normally", "the user type threw from its Serialize() call #" + std::to_string(k) + " but the operation returned normally");
+		if (leaked != 0) c.violation(sig + "/out=leak", std::to_string(leaked) + " allocation(s) made during the call are still live after all objects were destroyed (outcome " + r.cls + ")");
+		const char* want = ek == 2 ? "nonstd" : "std:other";
+		if (r.threw && std::string(r.cls) != want) c.violation(sig + "/out=converted_to_" + r.cls, std::string("the exception thrown by the user type reached the caller as ") + r.cls + " (" + r.what + ")");
+		if (r.threw && ek == 0 && std::string(r.what) != "user type refused") c.violation(sig + "/out=other_exception", std::string("another exception reached the caller: ") + r.what);
 	} else {
 		if (arch == tl::Csv) { c.outcome("n/a"); return; }
 		int cap = c.choose(4, "cap"); int missing = c.choose(8, "missing_mask");
